@@ -26,6 +26,21 @@
 (* difference), `rel error` is abs/|Jfd| there, `magnitude` the max-norms  *)
 (* of the two matrices.  The squared Frobenius norm of the difference is   *)
 (* exported as well.  Everything is an integer or an exact rational.       *)
+(*                                                                         *)
+(* Two further families (stage 3, action ChooseMode) leave the affine      *)
+(* world, because there every step size gives the same quotient:           *)
+(*   y_r = sum_c (A[r,c] x_c + Q[r,c] x_c^2) + b_r,  Q = 4 sgn(A) on the   *)
+(*   support, evaluated at x_c = c.  The exact Jacobian is J = A + 2 Q x;  *)
+(*   the FORWARD quotient with step 1/n (n in {1,2,4}) is exactly          *)
+(*   J + Q/n - an integer matrix again, but a different one for every      *)
+(*   step.  A check called with a LIST of steps has to report, for step k, *)
+(*   the quotient of step k and the errors against THAT matrix (StepLaw;   *)
+(*   for a correct partial the reported error is the truncation error      *)
+(*   4/n of the step, CorrectStepError).                                   *)
+(*   A DIRECTIONAL check (one quotient along the direction of all ones     *)
+(*   instead of one per column) compares J.1 with (J + Q/n).1, vectors     *)
+(*   with one entry per row whatever the declared storage; a single        *)
+(*   direction cannot be attributed to columns, so nothing is flagged.     *)
 (***************************************************************************)
 EXTENDS Rat, Naturals, FiniteSets, TLC, Json
 
@@ -33,8 +48,10 @@ CONSTANTS MaxR, MaxC,      \* largest shape of A
           \* Shapes with fewer than 9 cells are enumerated completely.  For shapes with 9 resp. 12 cells:
           SupMod9, SupMod12, SupRem,   \* supports S with SupHash(S) % SupMod = SupRem % SupMod   (1 = all)
           CrossMod9, CrossMod12,       \* under-declared pattern together with wrong values: every CrossMod-th
+          ModeMod,                     \* 6-cell shapes enter the step / directional families for every ModeMod-th support
           \* one stored scenario for INIT InitReplay (./check C13 --replay); unused by INIT Init
-          RpR, RpC, RpKind, RpAn, RpPc, RpS, RpD     \* RpS / RpD: Bits() of the support / of the removed cells
+          RpR, RpC, RpKind, RpAn, RpPc, RpS, RpD,    \* RpS / RpD: Bits() of the support / of the removed cells
+          RpMode                                     \* 0: base family, i > 0: ModeSeq[i]
 
 \* value table of A (entry used where the support has a cell); equal magnitudes on purpose (ties)
 V == << <<1, -2, 3, 2>>, <<-3, 2, 1, -2>>, <<2, 3, -1, 3>> >>
@@ -65,6 +82,18 @@ Bits(nC, T) == LET q == AllSeq(3, nC)
 
 \* --- the scenario ---------------------------------------------------------------------------------
 AOf(nR, nC, S) == Mat(nR, nC, LAMBDA r, c : IF <<r, c>> \in S THEN V[r][c] ELSE 0)
+\* curvature of the step / directional families (q = 1): a multiple of 4 with the sign of A, so that the Jacobian
+\* A + 2 Q x and every quotient J + Q/n (n in {1, 2, 4}) keep the support and the signs of A (nothing cancels)
+QOf(nR, nC, S, q) == Mat(nR, nC, LAMBDA r, c : IF q = 1 /\ <<r, c>> \in S THEN 4 * Sgn(V[r][c]) ELSE 0)
+\* exact Jacobian of  y_r = sum_c (A[r][c] x_c + Q[r][c] x_c^2) + b_r  at  x_c = c
+JOf(A, Qm, nR, nC) == Mat(nR, nC, LAMBDA r, c : A[r][c] + 2 * Qm[r][c] * c)
+\* how a check is run: q curvature on/off, st the list of steps 1/n (<<>>: the affine base family, where the
+\* harness runs its own list of methods), dir a directional check
+BaseMode == [q |-> 0, st |-> <<>>, dir |-> FALSE]
+ModeSeq == << [q |-> 1, st |-> <<2, 4>>, dir |-> FALSE], [q |-> 1, st |-> <<4, 2>>, dir |-> FALSE],
+             [q |-> 1, st |-> <<2>>, dir |-> FALSE],
+             [q |-> 0, st |-> <<2>>, dir |-> TRUE], [q |-> 1, st |-> <<4, 2>>, dir |-> TRUE] >>
+Modes == {ModeSeq[i] : i \in 1..Len(ModeSeq)}
 
 \* removed cells of an under-declared pattern: 1..3 nonzeros, pairwise in different rows AND columns
 Matchings(S) == {D \in {{a, b, c} : a \in S, b \in S, c \in S} :
@@ -88,11 +117,15 @@ ValsOf(A, an, pseq, nS) ==
             [] an = "wrong1"  -> At(A, pseq[i]) + (IF i = w THEN 1 ELSE 0)
             [] an = "negate"  -> 0 - At(A, pseq[i])]
 
-Mk(nR, nC, kind, an, S, pat) ==
+MkM(nR, nC, kind, an, S, pat, md) ==
     LET A == AOf(nR, nC, S)
+        Qm == QOf(nR, nC, S, md.q)
+        J == JOf(A, Qm, nR, nC)
         pseq == PSeqOf(nR, nC, kind, S, pat.P)
-    IN [R |-> nR, C |-> nC, kind |-> kind, an |-> an, pc |-> pat.pc, S |-> S, D |-> pat.D,
-        A |-> A, b |-> [r \in 1..nR |-> r], pseq |-> pseq, vals |-> ValsOf(A, an, pseq, Cardinality(S))]
+    IN [R |-> nR, C |-> nC, kind |-> kind, an |-> an, pc |-> pat.pc, S |-> S, D |-> pat.D, P |-> pat.P,
+        A |-> A, Qm |-> Qm, J |-> J, md |-> md,
+        b |-> [r \in 1..nR |-> r], pseq |-> pseq, vals |-> ValsOf(J, an, pseq, Cardinality(S))]
+Mk(nR, nC, kind, an, S, pat) == MkM(nR, nC, kind, an, S, pat, BaseMode)
 
 \* --- what a check has to report -------------------------------------------------------------------
 \* (matrices are built once per scenario and kept in `out`; the laws below read them from there)
@@ -100,12 +133,14 @@ PSet(s) == {s.pseq[i] : i \in 1..Len(s.pseq)}
 Declared(s) == IF s.kind = "dense" THEN Cells(s.R, s.C) ELSE PSet(s)
 Support(s) == {x \in Cells(s.R, s.C) : At(s.A, x) # 0}
 
-Jfd(s) == s.A                                                  \* the quotient actually computed
+Jfd(s) == s.J                                                  \* the quotient actually computed (base family: exact)
+\* the forward quotient with step 1/n
+JfdStep(s, n) == Mat(s.R, s.C, LAMBDA r, c : s.J[r][c] + (s.Qm[r][c] \div n))
 Jfwd(s) == LET ps == PSet(s)
                pv == TLCEval([x \in ps |-> s.vals[CHOOSE i \in 1..Len(s.pseq) : s.pseq[i] = x]])
            IN Mat(s.R, s.C, LAMBDA r, c : IF <<r, c>> \in ps THEN pv[<<r, c>>] ELSE 0)
-JfdRep(s) == LET d == Declared(s)
-             IN Mat(s.R, s.C, LAMBDA r, c : IF <<r, c>> \in d THEN s.A[r][c] ELSE 0)
+Restrict(M, d, nR, nC) == Mat(nR, nC, LAMBDA r, c : IF <<r, c>> \in d THEN M[r][c] ELSE 0)
+JfdRep(s) == Restrict(s.J, Declared(s), s.R, s.C)
 Diff(M, N, nR, nC) == Mat(nR, nC, LAMBDA r, c : M[r][c] - N[r][c])
 UncoveredOf(A, decl, nR, nC) == {x \in Cells(nR, nC) : At(A, x) # 0 /\ x \notin decl}
 Uncovered(s) == UncoveredOf(Jfd(s), Declared(s), s.R, s.C)
@@ -134,6 +169,18 @@ Report(Jf, Jd, nr, nc) ==
 \* check_totals on the chain  x -> [scenario component] -> y -> [z = G y, dense, correct] -> z
 Tot(M, nR, nC) == Mat(NG, nC, LAMBDA i, c : SumN([r \in 1..nR |-> GT[i][r] * M[r][c]], nR))
 
+\* what the check has to report for step k of the list (step / directional families)
+RowSum(M, nR, nC) == Mat(nR, 1, LAMBDA r, c : SumN([k \in 1..nC |-> M[r][k]], nC))
+StepRep(s, k) ==
+    LET full == JfdStep(s, s.md.st[k])
+        jf == Jfwd(s)
+    IN IF s.md.dir
+       THEN LET f1 == RowSum(jf, s.R, s.C)
+                d1 == RowSum(full, s.R, s.C)
+            IN [jfwd |-> f1, jfd |-> d1, unc |-> {}, p |-> Report(f1, d1, s.R, 1)]
+       ELSE LET d == Restrict(full, Declared(s), s.R, s.C)
+            IN [jfwd |-> jf, jfd |-> d, unc |-> UncoveredOf(full, Declared(s), s.R, s.C), p |-> Report(jf, d, s.R, s.C)]
+
 Expected(s) ==
     LET jf == Jfwd(s)
         jd == JfdRep(s)
@@ -145,7 +192,8 @@ Expected(s) ==
         p    |-> Report(jf, jd, s.R, s.C),
         ty   |-> Report(jf, Jfd(s), s.R, s.C),                 \* total d y / d x : the whole model is differenced                 \* total d y / d x : the whole model is differenced
         tzf  |-> tf, tzd |-> td,
-        tz   |-> Report(tf, td, NG, s.C)]
+        tz   |-> Report(tf, td, NG, s.C),
+        steps |-> [k \in 1..Len(s.md.st) |-> StepRep(s, k)]]
 
 \* --- scenario enumeration: Init fixes (shape, kind, analytic variant), the first step the support of A, the second
 \* --- the pattern.  Every state carries a well-formed scenario; only stage 2 is exported. -----------------------
@@ -176,7 +224,19 @@ ChoosePattern ==
                 (Bits(scen.C, scen.S) + 5 * Bits(scen.C, pat.D)) % CrossMod(scen.R * scen.C) = 0
           /\ scen' = Mk(scen.R, scen.C, scen.kind, scen.an, scen.S, pat)
     /\ out' = Expected(scen')
-Next == ChooseSupport \/ ChoosePattern
+\* the step / directional families branch off a sample of the base scenarios: at most 6 cells (6 cells: every
+\* ModeMod-th support), correct or one wrong value, at most one removed nonzero
+ModeBase(s) == /\ s.R * s.C <= 6
+               /\ (s.R * s.C = 6 => Bits(s.C, s.S) % ModeMod = SupRem % ModeMod)
+               /\ s.an \in {"correct", "wrong1"}
+               /\ Cardinality(s.D) <= 1
+ChooseMode ==
+    /\ stage = 2 /\ stage' = 3
+    /\ ModeBase(scen)
+    /\ \E md \in Modes :
+          scen' = MkM(scen.R, scen.C, scen.kind, scen.an, scen.S, [pc |-> scen.pc, P |-> scen.P, D |-> scen.D], md)
+    /\ out' = Expected(scen')
+Next == ChooseSupport \/ ChoosePattern \/ ChooseMode
 
 FromBits(nC, n) == {x \in Cells(3, nC) : (n \div Pow2((x[1] - 1) * nC + x[2] - 1)) % 2 = 1}
 InitReplay ==
@@ -184,22 +244,27 @@ InitReplay ==
         D == FromBits(RpC, RpD)
         P == CASE RpPc = "full" -> Cells(RpR, RpC) [] RpPc = "exact" -> S [] RpPc = "under" -> S \ D
                [] RpPc = "diag" -> DiagCells(RpR)
-    IN /\ stage = 2
-       /\ scen = Mk(RpR, RpC, RpKind, RpAn, S, [pc |-> RpPc, P |-> P, D |-> D])
+    IN /\ stage = IF RpMode = 0 THEN 2 ELSE 3
+       /\ scen = MkM(RpR, RpC, RpKind, RpAn, S, [pc |-> RpPc, P |-> P, D |-> D],
+                     IF RpMode = 0 THEN BaseMode ELSE ModeSeq[RpMode])
        /\ out = Expected(scen)
 
 \* --- laws -----------------------------------------------------------------------------------------
 IsZero(M, nR, nC) == \A x \in Cells(nR, nC) : At(M, x) = 0
-CorrectOnP(s) == \A i \in 1..Len(s.pseq) : s.vals[i] = At(s.A, s.pseq[i])
+CorrectOnP(s) == \A i \in 1..Len(s.pseq) : s.vals[i] = At(s.J, s.pseq[i])
+IsBase == scen.md = BaseMode
 ErrIsZero == IsZero(out.err, scen.R, scen.C)
 
 WellFormed == /\ Support(scen) = scen.S
+              /\ {x \in Cells(scen.R, scen.C) : At(scen.J, x) # 0} = scen.S        \* curvature cancels nothing
+              /\ (IsBase <=> stage < 3) /\ (IsBase => scen.J = scen.A /\ out.steps = <<>>)
+              /\ PSet(scen) = scen.P
               /\ Cardinality(PSet(scen)) = Len(scen.pseq)
               /\ (scen.pc = "under" => Cardinality(scen.D) \in 1..3 /\ scen.D \subseteq scen.S)
               /\ \A i \in 1..Len(scen.pseq) : At(out.jfwd, scen.pseq[i]) = scen.vals[i]
               /\ \A x \in Cells(scen.R, scen.C) \ PSet(scen) : At(out.jfwd, x) = 0
               /\ \A x \in Cells(scen.R, scen.C) :
-                    /\ At(out.err, x) = At(out.jfwd, x) - At(scen.A, x)
+                    /\ At(out.err, x) = At(out.jfwd, x) - At(scen.J, x)
                     /\ At(out.erep, x) = At(out.jfwd, x) - At(out.jfd, x)
 \* nothing is flagged exactly when the declaration covers the support of the approximated Jacobian
 UncoveredIffNotCovered == (out.unc = {}) <=> (Support(scen) \subseteq Declared(scen))
@@ -210,8 +275,9 @@ UnderFlagsAllColumns == (scen.pc = "under" /\ scen.kind # "dense") =>
 \* the analytic partial is right iff its values are right where it returns them and it returns all nonzeros
 ErrZeroIff == ErrIsZero <=> (CorrectOnP(scen) /\ Support(scen) \subseteq PSet(scen))
 \* reported difference and flags together lose nothing: they differ from the true error exactly on the flagged cells
-NothingDropped == /\ \A x \in Cells(scen.R, scen.C) : (At(out.err, x) # At(out.erep, x)) <=> (x \in out.unc)
-                  /\ ErrIsZero <=> (out.p.abs = 0 /\ out.unc = {})
+NothingDropped == IsBase =>
+                  /\ \A x \in Cells(scen.R, scen.C) : (At(out.err, x) # At(out.erep, x)) <=> (x \in out.unc)
+                  /\ (ErrIsZero <=> (out.p.abs = 0 /\ out.unc = {}))
 \* the flagged set depends on the matrix and the declared cells only, not on the sparse storage format
 StorageIndependent == scen.kind \in SparseKinds =>
                           \A k \in SparseKinds : Uncovered([scen EXCEPT !.kind = k]) = out.unc
@@ -228,10 +294,46 @@ TotalsLaw == /\ (ErrIsZero <=> out.ty.abs = 0)
              /\ \A i \in 1..NG : \A c \in 1..scen.C :
                    out.tzf[i][c] - out.tzd[i][c] = SumN([r \in 1..scen.R |-> GT[i][r] * out.err[r][c]], scen.R)
 
+\* --- laws of the step / directional families -------------------------------------------------------------------
+\* what is reported for step k is the quotient of step k (not of another step), restricted to the declared cells
+\* resp. summed along the direction; the errors are the errors against that matrix
+StepLaw ==
+    \A k \in 1..Len(out.steps) :
+        LET st == out.steps[k]
+            n == scen.md.st[k]
+            full(x) == At(scen.J, x) + (At(scen.Qm, x) \div n)
+        IN /\ st.p.uniq /\ st.p.abs = st.p.maxabs
+           /\ IF scen.md.dir
+              THEN /\ st.unc = {}
+                   /\ \A r \in 1..scen.R :
+                         /\ st.jfd[r][1] = SumN([c \in 1..scen.C |-> full(<<r, c>>)], scen.C)
+                         /\ st.jfwd[r][1] = SumN([c \in 1..scen.C |-> out.jfwd[r][c]], scen.C)
+              ELSE /\ st.jfwd = out.jfwd
+                   /\ \A x \in Cells(scen.R, scen.C) :
+                         At(st.jfd, x) = IF x \in Declared(scen) THEN full(x) ELSE 0
+                   /\ st.unc = Support(scen) \ Declared(scen)
+\* two different steps give two different reports as soon as a declared cell carries curvature
+NoAlias ==
+    \A k, l \in 1..Len(out.steps) :
+        (~scen.md.dir /\ scen.md.q = 1 /\ scen.md.st[k] # scen.md.st[l] /\ Declared(scen) \cap scen.S # {}) =>
+            out.steps[k].jfd # out.steps[l].jfd
+\* a correct partial of the curved component is reported with the truncation error of the step, 4/n
+CorrectStepError ==
+    \A k \in 1..Len(out.steps) :
+        (~scen.md.dir /\ scen.md.q = 1 /\ ErrIsZero) =>
+            out.steps[k].p.abs = 4 \div scen.md.st[k]
+
 \* the exported record: the scenario as the harness has to build it and the figures it has to find
 ExpRec == [s |-> [R |-> scen.R, C |-> scen.C, kind |-> scen.kind, an |-> scen.an, pc |-> scen.pc,
                   nd |-> Cardinality(scen.D), A |-> scen.A, b |-> scen.b, pseq |-> scen.pseq, vals |-> scen.vals],
            v |-> [jfwd |-> out.jfwd, jfd |-> out.jfd, unc |-> out.unc, p |-> out.p,
                   ty |-> out.ty, tzf |-> out.tzf, tzd |-> out.tzd, tz |-> out.tz]]
-Export == stage = 2 => PrintT(<<"EXP", ToJson(ExpRec)>>)
+\* step / directional families: the scenario additionally carries the curvature and the mode, the expectation is the
+\* list of per-step reports
+ExpRecM == [s |-> [R |-> scen.R, C |-> scen.C, kind |-> scen.kind, an |-> scen.an, pc |-> scen.pc,
+                   nd |-> Cardinality(scen.D), A |-> scen.A, Q |-> scen.Qm, md |-> scen.md, b |-> scen.b,
+                   pseq |-> scen.pseq, vals |-> scen.vals],
+            v |-> [steps |-> out.steps]]
+Export == /\ stage = 2 => PrintT(<<"EXP", ToJson(ExpRec)>>)
+          /\ stage = 3 => PrintT(<<"EXPM", ToJson(ExpRecM)>>)
 =============================================================================
